@@ -315,6 +315,7 @@ func stringLits(n ast.Node) []string {
 }
 
 var outDir string
+var vocabFile string
 
 func write(name, content string) {
 	if err := os.WriteFile(filepath.Join(outDir, name), []byte(content), 0o644); err != nil {
@@ -371,6 +372,7 @@ func genEncodings() {
 func main() {
 	flag.StringVar(&repo, "repo", "/repo", "")
 	flag.StringVar(&outDir, "out", "", "")
+	flag.StringVar(&vocabFile, "htmlvocab", "", "JSON written by `harness htmlvocab`")
 	flag.Parse()
 	if outDir == "" {
 		fatal("-out required")
